@@ -576,7 +576,7 @@ theorem evaluateSelect_wp {fetch : Bytes → Option Table} (hw : WellShaped fetc
         Wp (· = sortMsg) (fun _ => True)
           (projectColumns q.list fields rows1 >>= fun __x =>
             aggregateRows q.list q.groupBy __x.fst >>= fun rows =>
-            sortColumns q.orderBy __x.snd rows >>= fun rows =>
+            sortColumns q.orderBy (sortFields q.list __x.snd) rows >>= fun rows =>
             (pure
               (if q.lim.limitActive = true then
                   List.take q.lim.limit.toNat
